@@ -176,6 +176,9 @@ func (g *hGen) mkPod(ns, name string) *corev1.Pod {
 	var ports []corev1.ContainerPort
 	if owner != "" {
 		k := ns + "/" + owner
+		if ns == "" {
+			k = "default/" + owner // dressed like its namesake's pods in `default`
+		}
 		if l, ok := g.ownerLb[k]; ok && !r.chance(1, 6) && !(g.variants && r.chance(1, 2)) {
 			labels = l
 		} else if ok && len(l) > 0 && (g.variants || r.chance(1, 3)) {
@@ -389,7 +392,13 @@ func (g *hGen) mkBANP(name string) *apisv1a.BaselineAdminNetworkPolicy {
 	return b
 }
 
-func (g *hGen) podName() string { return fmt.Sprintf("%s/p%d", g.ns(), g.r.intn(g.podN)) }
+func (g *hGen) podName() string {
+	ns := g.ns()
+	if g.defNS && ns == "default" && g.r.chance(1, 3) {
+		ns = "" // a pod manifest without the namespace field: for the engine a pod of its own ("/p1"), evaluated with the default namespace object
+	}
+	return fmt.Sprintf("%s/p%d", ns, g.r.intn(g.podN))
+}
 
 func (g *hGen) peerStr() string {
 	r := g.r
@@ -1129,7 +1138,7 @@ func runC15(tier string, seed uint64) int {
 			"failing_histories":             len(bad),
 			"known_findings_observed":       len(rp.known),
 			"runs_per_hour":                 perHour(n, rp.start),
-			"fault_kinds":                   "delete of absent object, delete by copy, update in place, out-of-priority-order ANP insert, rejected inserts (duplicate name, second/misnamed BANP, unscheduled pod), ClearResources, cache size 10 (eviction)",
+			"fault_kinds":                   "delete of absent object, delete by copy, update in place, out-of-priority-order ANP insert, rejected inserts (duplicate name, second/misnamed BANP, unscheduled pod), ClearResources, cache size 10 (eviction), questions the engine cannot answer (a port by name: an error is an answer too), NetworkPolicies written without namespace, re-ports that change only the protocol of a named port",
 			"simulated_time":                "none",
 			"real_components":               "eval.PolicyEngine and everything below it; the oracle's fresh engines are the same real code",
 			"stubbed_components":            "none; reference model = dictionary (kind, namespace, name) -> object, no policy semantics",
